@@ -1,7 +1,8 @@
 check("C02", "exploration",
       "TLC model-checks the driver protocol (Pipeline.tla: order of calls, poison algebra, outcome; invariants I1-I5, three defective "
       "variants must violate them) and enumerates the exhaustive part of the input space (all token sequences up to the bound, all module "
-      "sets up to the bound); those and seeded mutants/soup/nesting/faulted programs/module sets are each compiled in an isolated worker "
+      "sets up to the bound); those, seeded mutants/soup/nesting/faulted programs/module sets, and the programs of the generators of other "
+      "checks (the well-formed random programs of C01, which must compile -- I4 --, and the permutation family of C11) are each compiled in an isolated worker "
       "process, and TLC validates every recorded event sequence as a behaviour of the protocol ending in Success or Failure with >= 1 code "
       "(Trace_Pipeline.tla). A 5% sample and every anomalous run also go through the real `penne emit` binary.",
       "The observation 'the process died / hung / panicked' is made by the harness, not derived by TLC; the specification supplies the "
